@@ -57,7 +57,7 @@ inductive Pkt
   deriving DecidableEq, Repr
 
 inductive OPkt
-  | data | disc
+  | data | connack | disc
   deriving DecidableEq, Repr
 
 inductive Once
@@ -80,6 +80,7 @@ inductive WPC
   | sel                  -- select { <-client.close ; <-client.out }
   | write (p : OPkt)     -- client.writePacket(packet)
   | drain                -- close branch: non-blocking receive loop on client.out
+  | flushConnack         -- close branch: writePacket(CONNACK), back to the loop
   | flushDisc            -- close branch: writePacket(DISCONNECT); rwc.Close()
   | setErr               -- deferred client.setError(err)
   | closeSock            -- (repair writeCloses) rwc.Close()
@@ -177,7 +178,7 @@ inductive Act
   -- readLoop
   | rRead | rReadErr | rSend | rSendAbort | rWaitConn | rErr | rSendDisc | rCloseIn
   -- writeLoop
-  | wRecv | wClose | wWriteOk | wWriteFail | wDrain | wFlush | wErr | wCloseSock
+  | wRecv | wClose | wWriteOk | wWriteFail | wDrain | wFlushConnack | wFlush | wErr | wCloseSock
   -- serve / connectWithTimeOut
   | cRecv | cRecvNil | cTimeout | cSendAuth | cSendAuthSkip | cSendErrConnack | cSendErrConnackSkip
   | cWriteConnack | cWriteConnackSkip | cErr | cCloseConnected
@@ -197,7 +198,7 @@ def Act.isEnv : Act → Bool
 /-- every action of the connection's own goroutines (and of the goroutine taking it over) -/
 def internalActs : List Act :=
   [.rRead, .rReadErr, .rSend, .rSendAbort, .rWaitConn, .rErr, .rSendDisc, .rCloseIn,
-   .wRecv, .wClose, .wWriteOk, .wWriteFail, .wDrain, .wFlush, .wErr, .wCloseSock,
+   .wRecv, .wClose, .wWriteOk, .wWriteFail, .wDrain, .wFlushConnack, .wFlush, .wErr, .wCloseSock,
    .cRecv, .cRecvNil, .cTimeout, .cSendAuth, .cSendAuthSkip, .cSendErrConnack, .cSendErrConnackSkip,
    .cWriteConnack, .cWriteConnackSkip, .cErr, .cCloseConnected,
    .sSpawn, .sWaitRead, .sCloseQueue, .sClosePl, .sWaitWg, .sCloseSock, .sUnreg, .sCloseClosed,
@@ -225,8 +226,8 @@ def onceSend (c : Cfg) (s : State) (toAfter : State) : Option State :=
   else none
 
 /-- `client.write(p)`: the send branch of `select { case <-client.close: case client.out <- p: }` -/
-def outPut (s : State) (toAfter : State) : Option State :=
-  if s.outq.length < cap then some { toAfter with outq := s.outq ++ [.data] } else none
+def outPut (s : State) (toAfter : State) (p : OPkt := .data) : Option State :=
+  if s.outq.length < cap then some { toAfter with outq := s.outq ++ [p] } else none
 
 /-- … and its `<-client.close` branch -/
 def outSkip (s : State) (toAfter : State) : Option State :=
@@ -272,7 +273,7 @@ def step (c : Cfg) (s : State) : Act → Option State
   | .wWriteOk =>
     match s.w with
     | .write .disc => if s.dead = false ∧ s.stalled = false then some { s with w := .setErr, srvClosed := true } else none
-    | .write .data => if s.dead = false ∧ s.stalled = false then some { s with w := .sel } else none
+    | .write _ => if s.dead = false ∧ s.stalled = false then some { s with w := .sel } else none
     | _ => none
   | .wWriteFail =>
     match s.w with
@@ -282,8 +283,11 @@ def step (c : Cfg) (s : State) : Act → Option State
     match s.w, s.outq with
     | .drain, [] => some { s with w := .setErr }
     | .drain, .disc :: q => some { s with w := .flushDisc, outq := q }
+    | .drain, .connack :: q => some { s with w := .flushConnack, outq := q }
     | .drain, .data :: q => some { s with outq := q }
     | _, _ => none
+  | .wFlushConnack =>
+    if s.w = .flushConnack ∧ (s.dead = true ∨ s.stalled = false) then some { s with w := .drain } else none
   | .wFlush =>
     if s.w = .flushDisc ∧ (s.dead = true ∨ s.stalled = false) then some { s with w := .setErr, srvClosed := true } else none
   | .wErr =>
@@ -305,10 +309,10 @@ def step (c : Cfg) (s : State) : Act → Option State
   | .cTimeout => if s.s = .cSel then some { s with s := .cSetErr } else none
   | .cSendAuth => if s.s = .cSendAuth then outPut s { s with s := .cSel } else none
   | .cSendAuthSkip => if s.s = .cSendAuth ∧ c.fix.connSelect = true then outSkip s { s with s := .cSel } else none
-  | .cSendErrConnack => if s.s = .cSendErrConnack then outPut s { s with s := .cSetErr } else none
+  | .cSendErrConnack => if s.s = .cSendErrConnack then outPut s { s with s := .cSetErr } .connack else none
   | .cSendErrConnackSkip =>
     if s.s = .cSendErrConnack ∧ c.fix.connSelect = true then outSkip s { s with s := .cSetErr } else none
-  | .cWriteConnack => if s.s = .cWriteConnack then outPut s { s with s := .cCloseConnected true } else none
+  | .cWriteConnack => if s.s = .cWriteConnack then outPut s { s with s := .cCloseConnected true } .connack else none
   | .cWriteConnackSkip => if s.s = .cWriteConnack then outSkip s { s with s := .cCloseConnected true } else none
   | .cErr => if s.s = .cSetErr then onceBegin c s false s { s with s := .cCloseConnected false } else none
   | .cCloseConnected =>
@@ -394,7 +398,7 @@ def run (c : Cfg) (s : State) : List Act → Option State
 def rankR : RPC → Nat
   | .done => 0 | .closeIn => 1 | .sendDisc => 4 | .setErr _ => 5 | .read => 6 | .waitConn => 7 | .send _ => 12
 def rankW : WPC → Nat
-  | .done => 0 | .closeSock => 1 | .setErr => 2 | .flushDisc => 3 | .drain => 4 | .sel => 5 | .write _ => 6
+  | .done => 0 | .closeSock => 1 | .setErr => 2 | .flushDisc => 3 | .drain => 4 | .flushConnack => 5 | .sel => 5 | .write _ => 6
 def rankS : SPC → Nat
   | .done => 0 | .closeClosed => 1 | .unreg => 2 | .closeSock => 3 | .waitWg => 4 | .closePl => 5 | .closeQueue => 6
   | .waitRead => 7 | .spawn _ => 20 | .cCloseConnected _ => 21 | .cSetErr => 22 | .cWriteConnack => 24
